@@ -8,6 +8,9 @@
 #ifndef VERIF_OPTION_STUB_H
 #define VERIF_OPTION_STUB_H
 #include "base.h"
+#ifndef VALIDATE_ARG_T
+#define VALIDATE_ARG_T long       /* parameter type of validate() in src/option.h, read from the working tree on every run */
+#endif
 class GenericOption                      //@struct
 {
 public:
@@ -20,9 +23,9 @@ public:
 struct Option_signed : GenericOption     //@struct
 {
    signed operator()() const { return(m_val); }
-   bool validate(long v) { return(m_bounded ? validate_bounded(v) : validate_base(v)); }
-   bool validate_base(long);
-   bool validate_bounded(long val);
+   bool validate(VALIDATE_ARG_T v) { return(m_bounded ? validate_bounded(v) : validate_base(v)); }
+   bool validate_base(VALIDATE_ARG_T);
+   bool validate_bounded(VALIDATE_ARG_T val);
    signed m_val;                         //@f int
    signed m_default;                     //@f int
    bool   m_bounded;                     //@f
@@ -32,9 +35,9 @@ struct Option_signed : GenericOption     //@struct
 struct Option_unsigned : GenericOption   //@struct
 {
    unsigned operator()() const { return(m_val); }
-   bool validate(long v) { return(m_bounded ? validate_bounded(v) : validate_base(v)); }
-   bool validate_base(long);
-   bool validate_bounded(long val);
+   bool validate(VALIDATE_ARG_T v) { return(m_bounded ? validate_bounded(v) : validate_base(v)); }
+   bool validate_base(VALIDATE_ARG_T);
+   bool validate_bounded(VALIDATE_ARG_T val);
    unsigned m_val;                       //@f unsigned int
    unsigned m_default;                   //@f unsigned int
    bool     m_bounded;                   //@f
